@@ -1,6 +1,7 @@
 """Generic wrapper for read-eval-print-loops, a.k.a. interactive shells
 """
 import os.path
+import re
 import signal
 import sys
 
@@ -80,9 +81,14 @@ class REPLWrapper(object):
           :mod:`asyncio` Future, which you can yield from to get the same
           result that this method would normally give directly.
         """
-        # Split up multiline commands and feed them in bit-by-bit
-        cmdlines = command.splitlines()
-        # splitlines ignores trailing newlines - add it back in manually
+        # Split up multiline commands and feed them in bit-by-bit. A line
+        # ends where the terminal ends it - at LF, CR or CR LF - and not at
+        # the other characters str.splitlines() knows (form feed, U+2028,
+        # NEL, ...): for the REPL those are part of the line.
+        cmdlines = re.split('\r\n|\r|\n', command)
+        if cmdlines[-1] == '':
+            cmdlines.pop()
+        # no item for a trailing newline so far - add it back in manually
         if command.endswith('\n'):
             cmdlines.append('')
         if not cmdlines:
